@@ -5,8 +5,7 @@ CONSTANTS
   KeySet = {1, 2, 3, 4, 5, 6}
   ValSet = {1, 2, 3}
   HashVals = {}
-  IntKeys = {}
-  NegKeys = {}
+  RKeys = {}
   ShardCounts = {1, 2, 3, 4, 7}
   Depth = 16
 INVARIANTS Emit
